@@ -16,7 +16,9 @@ extern _Bool g_noabort;
 
 /* ---- models of library types (M-lock, M-atomic, M-vec, M-map; DESIGN 3.1) ---- */
 struct M_lock { char _unused; };                     /* sequential semantics: locks are no-ops */
-struct M_vec_voidp { unsigned long len; void **elem; };   /* std::vector<void*> as a sequence view: elem[0..len) */
+struct M_vec_voidp { unsigned long len; void **elem; unsigned long cap; };   /* std::vector<void*> as a sequence view: elem[0..len), capacity cap */
 struct M_map_str_voidp { int _opaque; };             /* std::map<std::string, void*>: only through map_* stubs */
+
+#include "stdmodel_vec.h"
 
 #endif
